@@ -21,6 +21,7 @@ _BASE = "From LV Require Import Common.Cases Msa.Profile Msa.Merge Msa.Refine Ms
 IMPORTS = _BASE % ""
 ALM_IMPORTS = _BASE % " Msa.Alignments"
 ALMH_IMPORTS = _BASE % " Msa.Alignments Msa.AlignHistory"
+FUZZY_IMPORTS = _BASE % " Msa.Alignments Msa.AlignHistory Msa.AlignFuzzy"
 SOP_IMPORTS = _BASE % " Msa.Score Msa.ScoreExec"
 
 # token inventory: plain IPA segments all three sound-class models know; several map to the
@@ -87,6 +88,10 @@ def gen_seqs(rng, max_n, max_len):
             # same sound classes, different tokens (p/b, t/d, k/g share their class in every model)
             swap = {"p": "b", "b": "p", "t": "d", "d": "t", "k": "g", "g": "k"}
             seqs.append([swap.get(t, t) for t in rng.choice(seqs)])
+        elif seqs and c < 0.4:
+            # same class string under the coarse models (dolgo: every vowel is V), different under sca/asjp
+            vs = {"a": "i", "i": "a", "e": "o", "o": "e", "u": "a", "ə": "u"}
+            seqs.append([vs.get(t, t) for t in rng.choice(seqs)])
         elif style == "family":
             seqs.append(mutate(rng, base))
         elif style == "random":
@@ -137,6 +142,22 @@ def gen_call(rng):
     return c
 
 
+def gen_realign(rng, case):
+    """A second prog_align / lib_align on the SAME object, with other keywords (everything that feeds _set_model)."""
+    c = {"kind": "realign", "method": rng.choice(METHODS),
+         "tree": case["tree"] if rng.random() < 0.6 else rng.choice(TREES), "tree_seed": rng.randrange(1 << 30),
+         "mode": rng.choice(MODES),
+         "model": rng.choice([m for m in MODELS if m != case["model"]] + MODELS[:1]),
+         "classes": case["classes"], "sonar": case["sonar"],
+         "scoredict_seed": rng.choice([None, rng.randrange(1 << 30)]), "gop": rng.choice(GOPS),
+         "scale": rng.choice(SCALES), "factor": rng.choice(FACTORS), "gap_weight": rng.choice(GAPWS)}
+    if rng.random() < 0.3:
+        c["classes"] = not c["classes"]
+    if rng.random() < 0.3:
+        c["sonar"] = not c["sonar"]
+    return c
+
+
 def gen_case(rng, max_n=7, max_len=8, max_calls=4, stub=False, min_distinct=2):
     seqs = gen_seqs(rng, max_n, max_len)
     tries = 0
@@ -161,6 +182,9 @@ def gen_case(rng, max_n=7, max_len=8, max_calls=4, stub=False, min_distinct=2):
         "calls": [gen_call(rng) for _ in range(rng.randint(0, max_calls))],
         "stub": rng.randrange(1 << 30) if stub else None,
     }
+    if rng.random() < 0.35:
+        for _ in range(rng.choice([1, 1, 2])):
+            case["calls"].insert(rng.randrange(len(case["calls"]) + 1), gen_realign(rng, case))
     if rng.random() < (0.15 if classes else 0.5):
         case["seqs"] = add_collision(rng, case["seqs"], max_n)
     if rng.random() < (0.25 if stub else 0.1):
@@ -358,6 +382,10 @@ def idx_lit(x):
     return L.opt(x, lambda v: v)
 
 
+ALIGN_KEYS = ["method", "tree", "tree_seed", "mode", "model", "classes", "sonar", "scoredict_seed", "scoredict_kind",
+              "gop", "scale", "factor", "gap_weight", "guide_tree"]
+
+
 def run_impl(case):
     import lingpy.align.multiple as mm
     from lingpy.settings import rcParams
@@ -368,31 +396,31 @@ def run_impl(case):
     if case["as_strings"] and any(len(s) < 2 for s in case["seqs"]):
         seqs = [list(s) for s in case["seqs"]]
     msa = mm.Multiple(seqs)
-    kw = dict(model=case["model"], mode=case["mode"], gop=case["gop"], scale=case["scale"],
-              factor=case["factor"], gap_weight=case["gap_weight"], classes=case["classes"],
-              sonar=case["sonar"])
-    if not case["classes"] and case["scoredict_seed"] is not None:
-        r = random.Random(case["scoredict_seed"])
-        sd = {}
-        for a in toks:
-            for b in toks:
-                # self scores are positive (a zero self-similarity divides by zero in align_pairwise: a guard)
-                if case.get("scoredict_kind") == "hostile":
-                    sd[a, b] = sd[b, a] if (b, a) in sd else (1.0 if a == b else -float(r.randint(3, 9)))
-                else:
-                    sd[a, b] = sd[b, a] if (b, a) in sd else float(r.randint(1, 5) if a == b else r.randint(-3, 4))
-        kw["scoredict"] = sd
-    if case["tree"] == "given":
-        kw["guide_tree"] = [[m, n, 0.0, 0.0] for m, n in case["guide_tree"]]
-    elif case["tree"] == "custom":
-        probe = mm.Multiple(seqs)
-        probe._set_model(rcParams[case["model"]], case["classes"], False, False, {})
-        kw["guide_tree"] = random_tree(random.Random(case["tree_seed"]), probe.height)
-    else:
-        kw["tree_calc"] = case["tree"]
 
-    def class_code(c):
-        return tcode[c] if not case["classes"] else ord(c)
+    def align_kw(cf):
+        kw = dict(model=cf["model"], mode=cf["mode"], gop=cf["gop"], scale=cf["scale"],
+                  factor=cf["factor"], gap_weight=cf["gap_weight"], classes=cf["classes"],
+                  sonar=cf["sonar"])
+        if not cf["classes"] and cf.get("scoredict_seed") is not None:
+            r = random.Random(cf["scoredict_seed"])
+            sd = {}
+            for a in toks:
+                for b in toks:
+                    # self scores are positive (a zero self-similarity divides by zero in align_pairwise: a guard)
+                    if cf.get("scoredict_kind") == "hostile":
+                        sd[a, b] = sd[b, a] if (b, a) in sd else (1.0 if a == b else -float(r.randint(3, 9)))
+                    else:
+                        sd[a, b] = sd[b, a] if (b, a) in sd else float(r.randint(1, 5) if a == b else r.randint(-3, 4))
+            kw["scoredict"] = sd
+        if cf["tree"] == "given":
+            kw["guide_tree"] = [[m, n, 0.0, 0.0] for m, n in cf["guide_tree"]]
+        elif cf["tree"] == "custom":
+            probe = mm.Multiple(seqs)
+            probe._set_model(rcParams[cf["model"]], cf["classes"], False, False, {})
+            kw["guide_tree"] = random_tree(random.Random(cf["tree_seed"]), probe.height)
+        else:
+            kw["tree_calc"] = cf["tree"]
+        return kw
 
     def ext_matrix():
         out = []
@@ -400,19 +428,26 @@ def run_impl(case):
             out.append([None if t == "-" else tcode.get(t, 0) for t in row] if isinstance(row, list) else None)
         return out
 
-    res = {"tokens": [[tcode[t] for t in s] for s in case["seqs"]]}
+    tokens = [[tcode[t] for t in s] for s in case["seqs"]]
+    epochs = []
     with Recorder(case["stub"], case.get("script")) as rec:
-        rec.new_call()
-        msa.align(case["method"], **kw)
-        res["classes"] = [[class_code(c) for c in cl] for cl in msa.classes]
-        res["sonars"] = bool(msa._sonars)
-        res["tree"] = [[int(r[0]), int(r[1])] for r in msa.tree_matrix]
-        res["pa"] = [pa_entry(e) for e in rec.pa]
-        res["int"] = int_matrix(msa._alm_matrix)
-        res["ext"] = ext_matrix()
-        res["height"] = msa.height
-        steps = []
+
+        def do_align(cf):
+            """prog_align / lib_align on the SAME object: a new epoch (the class strings, hence the unique
+            sequences, may change)."""
+            rec.new_call()
+            msa.align(cf["method"], **align_kw(cf))
+            code = (lambda c: ord(c)) if cf["classes"] else (lambda c: tcode[c])
+            epochs.append({"tokens": tokens, "classes": [[code(c) for c in cl] for cl in msa.classes],
+                           "sonars": bool(msa._sonars), "tree": [[int(r[0]), int(r[1])] for r in msa.tree_matrix],
+                           "pa": [pa_entry(e) for e in rec.pa], "int": int_matrix(msa._alm_matrix),
+                           "ext": ext_matrix(), "height": msa.height, "steps": []})
+
+        do_align(case)
         for call in case["calls"]:
+            if call["kind"] == "realign":
+                do_align(call)
+                continue
             gw = call.get("gap_weight", 0.0)
             before_m = [list(r) for r in msa._alm_matrix]
             s_before = rec.score(msa, before_m, gw)
@@ -445,7 +480,7 @@ def run_impl(case):
             cand = None
             if call["kind"] != "swap" and call.get("check") == "final" and len(rec.sop) >= 2 and raised is None:
                 cand = int_matrix(rec.sop[-1][0])
-            steps.append({
+            epochs[-1]["steps"].append({
                 "kind": call["kind"], "check": call.get("check", "final"),
                 "idxs": rec.idxs if rec.idxs is not None else [],
                 "iter_called": rec.idxs is not None,
@@ -456,8 +491,13 @@ def run_impl(case):
                 "before": str(F(s_before)), "after": str(F(s_after)), "cand": cand,
                 "measured_gw": sorted({float(g) for _, g in rec.sop}),
             })
-        res["steps"] = steps
+    res = dict(epochs[0])
+    res["epochs"] = epochs[1:]
     return res
+
+
+def all_steps(res):
+    return [s for e in [res] + res.get("epochs", []) for s in e["steps"]]
 
 
 def pa_entry(e):
@@ -510,6 +550,10 @@ def step_lit(s):
 
 
 def render(case, res):
+    return L.lst([render_epoch(e) for e in [res] + res.get("epochs", [])])
+
+
+def render_epoch(res):
     return L.record("msa_case", [
         L.zmat(res["tokens"]), L.zmat(res["classes"]), L.b(res["sonars"]),
         L.lst(["(%d,%d)" % (m, n) for m, n in res["tree"]]), pa_lit(res["pa"]),
@@ -552,17 +596,19 @@ def outcome(s):
 
 def nontrivial(case, res):
     """C04: at least two unique class strings and a gap somewhere in the final alignment."""
-    last = res["steps"][-1]["ext"] if res["steps"] else res["ext"]
+    fin = ([res] + res.get("epochs", []))[-1]
+    last = fin["steps"][-1]["ext"] if fin["steps"] else fin["ext"]
     return res["height"] >= 2 and any(c is None for r in last if r for c in r)
 
 
 def nontrivial_c11(case, res):
     """C11: at least one end-of-pass refinement call whose candidate differs from the alignment before it."""
-    prev = res["int"]
-    for s in res["steps"]:
-        if s["kind"] != "swap" and s["check"] == "final" and s["cand"] is not None and s["cand"] != prev:
-            return True
-        prev = s["int"]
+    for e in [res] + res.get("epochs", []):
+        prev = e["int"]
+        for s in e["steps"]:
+            if s["kind"] != "swap" and s["check"] == "final" and s["cand"] is not None and s["cand"] != prev:
+                return True
+            prev = s["int"]
     return False
 
 
@@ -609,8 +655,10 @@ def classify(case, res):
            "same_class_diff_tokens" if res["height"] < len({tuple(s) for s in case["seqs"]}) else "classes_distinct"]
     if max(map(len, case["seqs"])) >= 4 * min(map(len, case["seqs"])):
         out.append("very_unequal_lengths")
-    for s in res["steps"]:
+    for s in all_steps(res):
         out.append("call:%s:%s" % (s["kind"], outcome(s)))
+    for e in res.get("epochs", []):
+        out.append("realign:height_changed" if e["height"] != res["height"] else "realign:height_same")
     return out
 
 
@@ -1002,6 +1050,130 @@ def classify_sop(case, res):
         ["sop:zero_division" for v in res["mats"] if v is None]
 
 
+# ----------------------------------------------------------------------------------------------
+# Alignments in fuzzy (partial cognate) mode
+FUZZY_BITS = {0: "correspondence: the alignment column of a fuzzy (partial-cognate) wordlist differs from the model's "
+                 "(morphemes = segments split at '+', one cognate id per morpheme, library default split_on_tones=False)",
+              1: "generated wordlist is malformed (generator error)",
+              2: "C04 (Alignments clause, partial cognates): splitting a stored alignment at '+' does not give one row "
+                 "per morpheme that de-gaps to the morpheme, rows of one multi-member set differ in length, a morpheme "
+                 "outside such sets was changed, or a set's alm_matrix violates the Multiple invariant"}
+
+
+def gen_syllable(rng):
+    s = [rng.choice(CONS)]
+    if rng.random() < 0.3:
+        s.append(rng.choice(["j", "w", "r", "l"]))
+    s.append(rng.choice(VOWS))
+    if rng.random() < 0.3:
+        s.append(rng.choice(["n", "ŋ", "m", "k", "t"]))
+    if rng.random() < 0.8:
+        s.append(rng.choice(TONES))
+    return s
+
+
+def gen_morpheme(rng):
+    # one or two syllables in ONE morpheme: a tone letter may stand in non-final position
+    return [t for _ in range(rng.choice([1, 1, 2, 2, 3])) for t in gen_syllable(rng)]
+
+
+def gen_fuzzy_case(rng, max_words=8):
+    ndoc = rng.choice([2, 3, 4])
+    nw = rng.randint(2, max_words)
+    ncog = rng.randint(1, max(2, nw))
+    base = {c: gen_morpheme(rng) for c in range(1, ncog + 1)}
+    words = []
+    for i in rng.sample(range(1, 60), nw):
+        k = rng.choice([1, 1, 2, 2, 3])
+        cogs = []
+        for _ in range(k):
+            c = rng.choice([0] + [x for x in range(1, ncog + 1) if x not in cogs] * 3 or [0])
+            cogs.append(c)
+        morphs = []
+        for c in cogs:
+            r = rng.random()
+            morphs.append(mutate(rng, base[c]) if c and r < 0.5 else list(base[c]) if c and r < 0.7 else gen_morpheme(rng))
+        words.append({"id": i, "doc": "L%d" % rng.randrange(ndoc), "concept": "c%d" % rng.randint(1, 3),
+                      "cogs": cogs, "morphs": morphs})
+    kw = {"method": rng.choice(METHODS), "tree_calc": rng.choice(["upgma", "neighbor"]), "mode": rng.choice(MODES),
+          "gop": rng.choice(GOPS), "scale": rng.choice(SCALES), "factor": rng.choice(FACTORS),
+          "gap_weight": rng.choice(GAPWS), "iteration": rng.random() < 0.3, "swap_check": rng.random() < 0.2,
+          "model": rng.choice(MODELS)}
+    # the optional keyword is omitted most of the time (the library default is what is documented: False)
+    return {"fwords": words, "kw": kw, "split_on_tones": rng.choice([None, None, None, False]),
+            "twice": rng.random() < 0.15}
+
+
+def run_fuzzy_impl(case):
+    from lingpy.align.sca import Alignments
+    D = {0: ["doculect", "concept", "tokens", "cogids", "ipa"]}
+    toks = sorted({t for w in case["fwords"] for m in w["morphs"] for t in m})
+    tcode = {t: i + 1 for i, t in enumerate(toks)}
+    tcode["+"] = 0
+    for w in case["fwords"]:
+        flat = []
+        for k, m in enumerate(w["morphs"]):
+            flat += (["+"] if k else []) + list(m)
+        D[w["id"]] = [w["doc"], w["concept"], flat, list(w["cogs"]), "".join(flat)]
+    kw = {} if case["split_on_tones"] is None else {"split_on_tones": case["split_on_tones"]}
+    alm = Alignments(D, ref="cogids", fuzzy=True, **kw)
+    alm.align(**case["kw"])
+    if case["twice"]:
+        alm.align(**case["kw"])
+
+    def row(r):
+        return [None if t == "-" else tcode.get(t, -1) for t in r]
+
+    def morphs(seg):
+        out = [[]]
+        for t in seg:
+            if t == "+":
+                out.append([])
+            else:
+                out[-1].append(tcode[t])
+        return out
+
+    res = {"words": [], "sets": [], "col": []}
+    for k in alm:
+        res["words"].append([int(k), alm.cols.index(alm[k, "doculect"]), [int(c) for c in alm[k, "cogids"]],
+                             morphs(list(alm[k, "tokens"]))])
+        res["col"].append([int(k), row(list(alm[k, "alignment"]))])
+    for key, v in alm.msa["cogids"].items():
+        res["sets"].append([[[tcode[t] for t in q] for q in v["seqs"]], [row(r) for r in v["alignment"]]])
+    return res
+
+
+def render_fuzzy(case, res):
+    words = L.lst(["(Build_fword %d %d %s %s)" % (i, d, L.lst(["%d" % c for c in cs]), L.zmat(ms))
+                   for i, d, cs, ms in res["words"]])
+    sets = L.lst(["(%s, %s)" % (L.zmat(q), L.lst([erow_lit(r) for r in a])) for q, a in res["sets"]])
+    return L.record("fuzzy_case", [words, sets, col_lit(res["col"])])
+
+
+def nontrivial_fuzzy(case, res):
+    """A multi-member set whose alignment has a gap, and a morpheme with a tone letter in non-final position."""
+    return any(any(c is None for r in a for c in r) for _, a in res["sets"]) and \
+        any(t in TONES for w in case["fwords"] for m in w["morphs"] for t in m[:-1])
+
+
+def shrink_fuzzy(case):
+    if len(case["fwords"]) > 2:
+        for k in range(len(case["fwords"])):
+            c = copy.deepcopy(case)
+            del c["fwords"][k]
+            yield c
+    for k, w in enumerate(case["fwords"]):
+        if len(w["morphs"]) > 1:
+            c = copy.deepcopy(case)
+            del c["fwords"][k]["morphs"][-1]
+            del c["fwords"][k]["cogs"][-1]
+            yield c
+
+
+def classify_fuzzy(case, res):
+    return ["fuzzy:split_on_tones=%s" % case["split_on_tones"], "fuzzy:sets=%d" % len(res["sets"])]
+
+
 def _view(**over):
     import types
     ns = types.SimpleNamespace(**{k: v for k, v in globals().items() if not k.startswith("__")})
@@ -1011,6 +1183,8 @@ def _view(**over):
 
 
 C11View = _view(nontrivial=nontrivial_c11)
+FuzzyView = _view(IMPORTS=FUZZY_IMPORTS, run_impl=run_fuzzy_impl, render=render_fuzzy, BITS=FUZZY_BITS,
+                  nontrivial=nontrivial_fuzzy, shrink=shrink_fuzzy, classify=classify_fuzzy)
 SopView = _view(IMPORTS=SOP_IMPORTS, run_impl=run_sop_impl, render=render_sop, BITS=SOP_BITS, nontrivial=nontrivial_sop,
                 shrink=lambda case: iter(()), classify=classify_sop)
 AlmHView = _view(IMPORTS=ALMH_IMPORTS, run_impl=run_almh_impl, render=render_almh, BITS=ALMH_BITS, nontrivial=nontrivial_almh,
